@@ -85,12 +85,15 @@ prop("C01", "exploration",
      "W1r: 1-4 files (sizes 1..6 parts+2, equal leaf names in different directories, optional rename, optional predecessor forest), part size 1-8, "
      "parts delivered in a drawn permutation over requests of 1-3 parts (several files per request), faults per part (byte flipped in transit, reader "
      "failing midway, connection cut before the part), staged partial overwritten on disk, wrong announced hash, retransmissions, new versions of a "
-     "name, receiver restarts; every arrival in the final directory is compared with the versions the harness created and with the receive log; "
+     "name, receiver restarts; directed: a name delivered before, the delivery aged 25 h and/or the receiver restarted, then a complete but corrupt copy of "
+     "a new version, then something that makes the receiver read its log again - the poll must not answer passed / waiting; every arrival in the final directory is compared with the versions the harness created and with the receive log; "
      "non-trivial = some file needs > 1 part AND (a fault, a retransmission or a restart occurred)",
      [dict(pkg="stagex", test="TestC01Stage", world="W1r", quick=1600, thorough=48000, per_proc=100, shrink_runs=200,
            required_classes=["fault-1", "staged-overwrite", "restart", "wrong-announced-hash", "corrupt-complete-copy"]),
       dict(pkg="stagex", test="TestC01HeldThenNewVersion", world="W1r", quick=400, thorough=12000, per_proc=100, shrink_runs=150,
-           required_classes=["held-copy-with-newer-companion"])],
+           required_classes=["held-copy-with-newer-companion"]),
+      dict(pkg="stagex", test="TestC01RejectedCopyReported", world="W1r", quick=600, thorough=20000, per_proc=40, shrink_runs=150,
+           required_classes=["delivery-aged-25h", "restart-after-delivery", "old-file-completes-afterwards"])],
      STAGE_ASSUME + ["corruptions are single-byte flips/overwrites, not md5 collisions; a staged copy is only overwritten while it is a partial (no receiver can detect a change made after validation)"])
 
 prop("C04", "exploration",
